@@ -364,9 +364,15 @@ func vf23GenCase(rt *rapid.T) *vf23Case {
 	case f < 86:
 		c.Fault = "cancel"
 		c.FaultStep = rapid.IntRange(0, 14).Draw(rt, "fault_step")
-	case f < 95:
+	case f < 92:
 		c.Fault = "close"
 		c.FaultStep = rapid.IntRange(0, 14).Draw(rt, "fault_step")
+	case f < 95:
+		// the transport hands the client CRYPTO data at another encryption level than the one it is reading at (packet
+		// reordering, a late retransmission): HandleData returns an error, and Close returns afterwards
+		c.Fault = "wrong-level"
+		c.FaultStep = rapid.IntRange(1, 14).Draw(rt, "fault_step")
+		c.FaultSub = rapid.SampledFrom([]string{"application", "handshake", "early", "initial"}).Draw(rt, "wrong_level")
 	default:
 		c.Fault = "srv-close"
 		c.FaultStep = rapid.IntRange(1, 10).Draw(rt, "fault_step")
@@ -451,7 +457,7 @@ func vf23Model(c *vf23Case) vf23Expect {
 		}
 	case "untrusted":
 		e.Outcome = "client-fails"
-	case "cancel", "close", "srv-close":
+	case "cancel", "close", "srv-close", "wrong-level":
 		e.Outcome = "interrupted" // may or may not complete, depending on the step
 	default:
 		e.Outcome = "complete"
@@ -921,6 +927,25 @@ func vf23Run(c *vf23Case, fast bool) *vf23Result {
 			res.interrupted = true
 			closeBoth()
 			return true
+		case "wrong-level":
+			lv := map[string]QUICEncryptionLevel{"application": QUICEncryptionLevelApplication, "handshake": QUICEncryptionLevelHandshake,
+				"early": QUICEncryptionLevelEarly, "initial": QUICEncryptionLevelInitial}[c.FaultSub]
+			if cq.conn.in.level == lv {
+				lv = QUICEncryptionLevelApplication
+				if cq.conn.in.level == lv {
+					lv = QUICEncryptionLevelInitial
+				}
+			}
+			res.interrupted = true
+			call(res.cli, "HandleData-at-wrong-level", "(*UQUICConn).HandleData", func() error {
+				cq.HandleData(lv, []byte{2, 0, 0, 4, 3, 3, 0, 0})
+				return nil
+			})
+			if stopped() {
+				return true
+			}
+			closeBoth()
+			return true
 		case "srv-close":
 			res.interrupted = true
 			call(res.srv, "Close", "(*QUICConn).Close", func() error { sq.Close(); return nil })
@@ -1277,7 +1302,7 @@ func vf23Judge(t vfFataler, st *vfStats, c *vf23Case, res *vf23Result, rerun fun
 	// a Close injected by the schedule ends the run without reading the events still queued: with the depth-first pump
 	// (one event per step) that can fall between QUICHandshakeDone and the 1-RTT read secret, so the "exactly once"
 	// part is only demanded of runs whose queue was read to the end
-	closedEarly := res.interrupted && (c.Fault == "close" || c.Fault == "srv-close")
+	closedEarly := res.interrupted && (c.Fault == "close" || c.Fault == "srv-close" || c.Fault == "wrong-level")
 	if closedEarly {
 		st.Class("outcome:closed-by-schedule-after-completion")
 	}
